@@ -125,6 +125,8 @@ class Case:
                 for c, x in zip(cs, xs): co[x] = co.get(x, Fraction(0)) + c
                 self.rows.append(Row(t[1], co, dec(t[4]), t[0], p))
             elif t[0] == "new":
+                import re as _re      # ExprBuilder::mul folds x*1 (integer literal 1) at build time
+                t = [t[0], _re.sub(r"mul\(1,(x\d+)\)", r"\1", _re.sub(r"mul\((x\d+),1\)", r"\1", t[1]))]
                 op = t[1][:t[1].index("(")]
                 a, b = _split_top(t[1][t[1].index("(") + 1:-1])
                 la, lb = _lin_expr(a), _lin_expr(b)
@@ -230,43 +232,38 @@ def point_violations(case, vals, kinds):
 # ------------------------------------------------------------------------------------------------ known classes (decidable on the case line)
 def _plain_var(s): return s.startswith("x") and s[1:].isdigit()
 def _plain_const(s): return s.startswith("f:") or s.lstrip("-").isdigit()
+def lowered_float(case, r):
+    """is the linear row posted as a FloatLin* propagator?  Yes iff it has a float literal (f64 coefficient or constant) or
+    ranges over a float variable (since the repair "linear constraints with integer literals over float variables are posted
+    as float linear constraints": LinearInt over float variables is materialised as LinearFloat, runtime_api/mod.rs)"""
+    fl = any(case.is_float(v) for v in r.coeffs)
+    if r.route == "lin": return True
+    if r.route == "ilin": return fl
+    if r.route == "new": return r.linear and (not r.extra["all_int"] or fl) and not _simple_eq(r)
+    if r.route == "props": return r.text.split()[1].startswith("flin")
+    return False
+def _simple_eq(r):
+    return r.route == "new" and r.linear and r.rel == "eq" and \
+        ((_plain_var(r.extra["lhs"]) and _plain_const(r.extra["rhs"])) or (_plain_var(r.extra["rhs"]) and _plain_const(r.extra["lhs"])))
 def row_class(case, r):
-    """known-finding class of ONE posted constraint (syntactic predicate on the case line), or None"""
+    """known-finding class of ONE posted constraint (syntactic predicate on the case line), or None.
+    Classes repaired in /repo and therefore no longer listed: float_cmp_intlin, float_intlin_single (integer-literal linear
+    constraints over float variables were posted as IntLin*), eq_val_outside (x.eq(c) moved the variable outside its bounds),
+    int_in_floatlin (FloatLinLe never tightened or checked an integer variable), mixed_strict_int_succ (int variable < float
+    variable used the integer successor)."""
     fl = [v for v in r.coeffs if case.is_float(v)]
     ints = [v for v in r.coeffs if not case.is_float(v)]
     nv = len(r.coeffs)
     if r.linear and r.route in ("lin", "props", "new", "ilin") and all(abs(c) < Fraction(1, 10 ** 12) for c in r.coeffs.values()):
         return "lin_zero_coeffs"             # every coefficient is (below 1e-12, treated as) zero: the row 0 rel K is never tested (D11)
     if r.rel == "ne" and fl:
-        return "float_ne"                    # FloatLinNe / IntLinNe / NotEquals never exclude anything from a float interval
-    if r.route == "ilin" and fl:
-        return "float_cmp_intlin" if nv >= 2 else "float_intlin_single"
-    if r.route == "new" and r.linear and r.extra["all_int"] and fl:
-        simple_eq = r.rel == "eq" and ((_plain_var(r.extra["lhs"]) and _plain_const(r.extra["rhs"])) or (_plain_var(r.extra["rhs"]) and _plain_const(r.extra["lhs"])))
-        if simple_eq:
-            v = fl[0]; val = r.const / r.coeffs[v]
-            return None if case.decls[v][1] <= val <= case.decls[v][2] else "eq_val_outside"
-        return "float_cmp_intlin" if nv >= 2 else "float_intlin_single"
-    if r.route == "new" and r.linear and r.rel == "eq" and nv == 1 and fl and \
-            ((_plain_var(r.extra["lhs"]) and _plain_const(r.extra["rhs"])) or (_plain_var(r.extra["rhs"]) and _plain_const(r.extra["lhs"]))):
-        v = fl[0]; val = r.const / r.coeffs[v]
-        if not (case.decls[v][1] <= val <= case.decls[v][2]):
-            return "eq_val_outside"          # Var == Val overwrites the interval at post time, whatever the declared bounds
-    if r.route == "props" and r.text.split()[1] in ("lt", "gt") and nv == 2:
-        t = r.text.split()
-        if t[2].startswith("x") and t[3].startswith("x"):
-            small, large = (int(t[2][1:]), int(t[3][1:])) if t[1] == "lt" else (int(t[3][1:]), int(t[2][1:]))
-            if not case.is_float(small) and case.is_float(large):
-                return "mixed_strict_int_succ"   # x < y posts x.next() <= y; Next on an int-valued view is +1 even when y is a float variable
+        return "float_ne"                    # FloatLinNe / NotEquals never exclude anything from a float interval
     if r.route == "props" and r.text.split()[1] == "eq" and nv == 1 and fl:
         c = float(r.const / r.coeffs[fl[0]]); st = float(case.step)
         if not (math.ceil(c / st) * st == c and math.floor(c / st) * st == c):
             return "eq_const_offgrid"        # Eq<VarId,Val>: the variable is quantised to the grid, the constant view accepts no tolerance
-    if r.route in ("lin", "props", "new") and r.linear and r.rel == "eq" and ints and fl and not (r.route == "props" and r.text.split()[1] == "eq") \
-            and not (r.route == "new" and r.extra["all_int"]):
+    if r.linear and lowered_float(case, r) and r.rel == "eq" and ints and fl:
         return "floatlineq_mixed"            # FloatLinEq: float variables are quantised with tolerances, integer ones get exact ceil/floor
-    if r.route in ("lin", "props", "new") and r.linear and r.rel != "eq" and ints and not (r.route == "props" and r.text.split()[1] in ("leq", "lt", "geq", "gt", "eq")):
-        return "int_in_floatlin"             # FloatLinLe never tightens or checks an integer variable
     return None
 
 def fast_path_applies(case):
